@@ -213,6 +213,30 @@ func ruleR15_4(w *World, r *Report) {
 		cp := storesTo(nx, "complit.Seq")
 		inc := storesTo(nx, "$0.Seq")
 		ok := len(cp) == 1 && len(inc) == 1 && instrDominates(inc[0], cp[0]) && canonName(cp[0].Val) == "$0.Seq"
+		if !ok && len(inc) == 1 && len(cp) == 0 {
+			// the copy is taken by a cloning method of the same receiver, called after the increment
+			for _, c := range ownCallsIn(nx) {
+				call, isCall := c.(*ssa.Call)
+				if !isCall || len(call.Call.Args) == 0 || call.Call.Args[0] != ssa.Value(nx.Params[0]) {
+					continue
+				}
+				cl := staticCallee(call)
+				if cl == nil || cl == nx {
+					continue
+				}
+				ccp := storesTo(cl, "complit.Seq")
+				fresh, _ := freshResult(cl, 0, 0)
+				returned := false
+				forEachOwnInstr(nx, func(in ssa.Instruction) {
+					if ret, isRet := in.(*ssa.Return); isRet && len(ret.Results) == 1 && ret.Results[0] == ssa.Value(call) {
+						returned = true
+					}
+				})
+				if fresh && returned && len(ccp) == 1 && canonName(ccp[0].Val) == "$0.Seq" && instrDominates(inc[0], call) {
+					ok = true
+				}
+			}
+		}
 		r.Check(ok, "OperationID.Next/returns incremented copy", u.Pos(nx.Pos()), "copy after increment", "Next does not return a copy carrying the incremented sequence")
 	}
 }
@@ -221,33 +245,39 @@ func ruleR15_4(w *World, r *Report) {
 func ruleR15_5(w *World, r *Report) {
 	u := w.Client()
 	r.Rule("R15.5", "ExecuteRemote is invoked only by executeRemoteBase, after SyncLamport with the operation's Lamport; SyncLamport leaves the clock at least at its argument on both edges (adopt if smaller, else tick)", 3)
-	fn := u.Fn(pDatatypes, "BaseDatatype", "executeRemoteBase")
-	if fn == nil {
-		r.Lost("BaseDatatype.executeRemoteBase")
-		return
-	}
-	var syn, ex ssa.CallInstruction
-	for _, c := range callsNamed(fn, "SyncLamport") {
-		syn = c
-	}
-	for _, c := range callsNamed(fn, "ExecuteRemote") {
-		ex = c
-	}
-	good := syn != nil && ex != nil && instrDominates(syn.(ssa.Instruction), ex.(ssa.Instruction))
-	if good {
-		a := canonName(syn.Common().Args[len(syn.Common().Args)-1])
-		good = strings.HasSuffix(a, ".Lamport") && strings.Contains(a, "$1") && canonName(syn.Common().Args[0]) == "$0.opID"
-	}
-	r.Check(good, "executeRemoteBase/clock sync first", u.Pos(fn.Pos()), "opID.SyncLamport(op.Lamport) before ExecuteRemote", "the local clock is not synchronised with the operation's Lamport before the remote operation is applied")
-	// who may invoke ExecuteRemote through the interface
+	// every place that applies a received operation (executeRemoteBase in the reviewed tree; its callers when that
+	// small function is inlined): the clock is synchronised with the operation's Lamport first
+	nSites := 0
 	for _, f := range u.ordaFuncs(func(p string) bool { return p == pDatatypes || p == pOrda || p == pCManagers }) {
-		for _, c := range callsNamed(f, "ExecuteRemote") {
-			if !c.Common().IsInvoke() {
+		for _, c := range ownCallsIn(f) {
+			if !c.Common().IsInvoke() || calleeName(c) != "ExecuteRemote" {
 				continue
 			}
+			nSites++
 			name := fnName(f)
-			r.Check(name == "BaseDatatype.executeRemoteBase", name+"/invokes ExecuteRemote", u.Pos(c.Pos()), "through executeRemoteBase", "a remote operation is applied without going through executeRemoteBase (no clock synchronisation): later local operations can be ordered before operations this replica has already applied")
+			opArg := canonName(stripIface(c.Common().Args[len(c.Common().Args)-1]))
+			good := false
+			for _, s2 := range callsNamed(f, "SyncLamport") {
+				if s2.Parent() != f || !instrDominates(s2.(ssa.Instruction), c.(ssa.Instruction)) {
+					continue
+				}
+				a := canonName(s2.Common().Args[len(s2.Common().Args)-1])
+				if strings.HasSuffix(a, ".Lamport") && opArg != "" && strings.Contains(a, opArg) && strings.HasSuffix(canonName(s2.Common().Args[0]), ".opID") {
+					good = true
+				}
+			}
+			cons := name + "/clock sync first"
+			if name == "BaseDatatype.executeRemoteBase" {
+				cons = "executeRemoteBase/clock sync first"
+			}
+			r.Check(good, cons, u.Pos(c.Pos()), "opID.SyncLamport(op.Lamport) before ExecuteRemote", "a remote operation is applied here without the local clock being synchronised with the operation's Lamport first: later local operations can be ordered before operations this replica has already applied")
+			inDatatypes := f.Pkg != nil && f.Pkg.Pkg.Path() == pDatatypes
+			r.Check(inDatatypes, name+"/invokes ExecuteRemote", u.Pos(c.Pos()), "in the datatype layer", "a remote operation is applied outside the datatype layer (no clock synchronisation, no transaction)")
 		}
+	}
+	if nSites == 0 {
+		r.Lost("the datatype layer: ExecuteRemote")
+		return
 	}
 	sl := u.Fn(pModel, "OperationID", "SyncLamport")
 	if sl == nil {
